@@ -92,12 +92,12 @@ P('C17',
   level_note='Complete finite domain, symbolic indices: exhaustive.',
   technique='Kani lemmas over the real table lookups, symbolic indices')
 P('C05',
-  assumptions=[ARITH, A2, A7, 'history oracle above the leaf; of the leaf, the list constructors/observers (List::new/append/head/tail/len/is_empty/clone) are proved for lists of every length (Verus unit list, view = Seq), while iteration and counting (List::iter, Iter::next, filter/count in hash_history_contains_hash_twice) are BOUNDED to lists of length <= 4',
+  assumptions=[ARITH, A2, A7, 'history oracle above the leaf; of the leaf, the list constructors/observers (List::new/append/head/tail/len/is_empty/clone) are proved for lists of every length (Verus unit list, view = Seq), the iterator step contract (List::iter starts at the head; Iter::next yields the current node\'s element and advances to exactly its successor) is proved loop-free for an arbitrary node (c05_iter_step, no bound); what stays BOUNDED to lists of length <= 4 is the composition: the induction from that step to whole-list iteration and filter/count in hash_history_contains_hash_twice (c05_twice_leaf)',
                'std contracts assumed in Verus unit list: Arc::clone returns a pointer to the same value; Option::map_or applies the closure to the payload or returns the default; the three one-expression closures in List::head/tail/len get a typed header and an ensures clause (body text unchanged)',
                'the correspondence between each `requires` of the Verus lemma lemma_turn (verus/history.spec) and the Kani/Verus obligation that proves it on the real code is the table in DESIGN 12.7 (by inspection, not machine-checked)',
                'positions parsed from text start with history == [hash] by reading src/display.rs (FromStr for GameState is not under contract)'],
   level_text='The property is a lemma over contracts, machine-checked at spec level by Verus (verus/history.spec: lemma_turn + lemma_init, ghost sequence of turn-start positions, invariant J): from (h1) the hash is a function of board, side, step (C08 obligations + Verus units pbv/fpb), (h2) a turn-ending action of a capture-free turn is offered only if the result hashes unlike the turn start and its hash does not already occur twice in the history (C06 obligations; no collision assumption needed in this direction), (h3) the history is appended at every turn end and reset exactly at captures (transition obligations), (h4) material never increases and strictly decreases at a capture (C02/C10), (h5) "occurs twice" is counting on the real list (bounded leaf) it follows that the board after a completed turn differs from the board at its start, that board+side occurred at most once before at a turn start, and that the invariant holds again.',
-  level_note='proof + bounded leaf: List::new/append/head/tail/len/is_empty/clone are proved unbounded (verus_list); List::iter, Iter::next and hash_history_contains_hash_twice are checked for lists of length <= 4 only (labelled bounded in the evidence, not counted as proved).',
+  level_note='proof + bounded leaf: List::new/append/head/tail/len/is_empty/clone are proved unbounded (verus_list); List::iter / Iter::next satisfy their per-node step contract for every list (c05_iter_step, loop-free); hash_history_contains_hash_twice as a whole (iteration + filter + count) is checked for lists of length <= 4 only (labelled bounded in the evidence, not counted as proved).',
   technique='Verus spec-level induction lemma over the contracts; ' + KANI + ' for every hypothesis; Verus unit on the real linked-list methods (unbounded); bounded Kani harnesses for list iteration/counting')
 P('C10',
   assumptions=[ARITH, A2, 'A5 core::fmt writes what it is given: the line/column layout of the printed diagram is not decided; only the per-cell codec is'],
